@@ -96,6 +96,11 @@ CHECKS = {
    "For every generated declaration, style and 6 probe versions: the real lookup_route routes exactly the declared method/path/versions with the declared operation id, body limit and content type; the real document shows the declared id, tags, deprecated, unpublished and doc text; the three styles give byte-identical documents and identical lookups; a live slice checks that declared body limits are the ones enforced.",
    "rustc and the generator (build.rs) are trusted; declarations outside the grammar are not covered",
    "DESIGN.md section 4/C19"),
+ "C08": ("E4+E2", "exploration",
+   "program-grammar enumeration of types (depth <=1, thorough <=2, over 18 scalars, 36 named/manual-schema types, 4 containers) mounted on real endpoints, then bounded-exhaustive instance enumeration: canonical instance + all single (thorough / small types: all double) point-mutations over the schema's own constraint atoms, validated against the type's schemars schema and against the schema in the real OpenAPI document by the harness's RefSchema",
+   "For every generated type: every annotation of the type's schema occurs in the document, and RefSchema(S_src, i) == RefSchema(S_doc, i) for every enumerated instance i. The thorough tier audits RefSchema itself against the Python jsonschema package.",
+   "RefSchema / InstanceGen are harness code (audited); `nullable` is read as admitting null on both sides; tuples and type arrays are outside the supported types",
+   "DESIGN.md section 4/C08"),
 }
 
 NOT_YET = {
@@ -136,7 +141,7 @@ def main():
       "engines": [
         {"name": "E1", "path": "harness/src/e1.rs + harness/src/bin/e1.rs", "serves_properties": ["C01","C02","C04","C06"], "kind_free_text": "stateless explicit exploration of registration histories on the real ApiDescription/HttpRouter"},
         {"name": "E3", "path": "harness/src/live.rs + harness/src/e3.rs + harness/src/bin/e3.rs", "serves_properties": ["C16","C17","C18"], "kind_free_text": "live event explorer: real HttpServer on loopback, raw TCP client, gated handlers, in-memory slog drain; stateless replay of every history"},
-        {"name": "E4", "path": "harness/zoo/build.rs + harness/zoo/gen_c08.rs + harness/zoo/src", "serves_properties": ["C19"], "kind_free_text": "program-grammar generator: declarations / types / endpoints enumerated by a build script, compiled against /repo, checked against the generator's record"},
+        {"name": "E4", "path": "harness/zoo/build.rs + harness/zoo/gen_c08.rs + harness/zoo/src", "serves_properties": ["C08","C19"], "kind_free_text": "program-grammar generator: declarations / types / endpoints enumerated by a build script, compiled against /repo, checked against the generator's record"},
         {"name": "E2", "path": "harness/src/bin/c03.rs c05.rs ...", "serves_properties": ["C03","C05","C09","C10","C11","C12","C13","C14","C15","C20"], "kind_free_text": "bounded-exhaustive input enumeration against reference functions, on the real public functions"},
       ],
       "checks": checks,
